@@ -127,6 +127,20 @@ def gen_sibling_pair(rng):
     return [mk(inside), mk(outside)]
 
 
+def gen_two_grans(rng):
+    """targeted family: the time dimension requested at TWO granularities in one query (day next to month, week next to month, ...), in either order, on a rollup
+    that can serve one of them, both or neither: the query may only be routed when every requested granularity is derivable"""
+    case = gen_friendly(rng)
+    pg = rng.choice(["day", "week", "month", "month"])
+    ms = rng.sample(["rev", "cntv", "mx", "mn", "cnt"], rng.randint(1, 3))
+    case["preaggs"] = [dict(name="r0", measures=ms, dimensions=[], time_dimension="ts", granularity=pg)]
+    case["mets"] = list(ms[:2])
+    a, b = rng.choice([("day", "month"), ("week", "month"), ("day", "week"), ("month", "year"), ("day", "quarter"), ("week", "year")])
+    case["dims"] = ["ts__" + a, "ts__" + b] if rng.random() < 0.5 else ["ts__" + b, "ts__" + a]
+    case["filters"] = []
+    return case
+
+
 def gen_candidates(rng):
     """targeted family: SEVERAL rollups that are tried in turn, the earlier ones rejected for one reason (a missing measure, a granularity that is too
     coarse, a missing filter column) and a later one lacking something else the query needs (the time dimension, a dimension): what one candidate
@@ -224,10 +238,13 @@ def route_facts(case, used):
         tuse, tcoq = ("none", None), "NoTime"
     elif tdims[0] == "ts":
         tuse, tcoq = ("bare", None), "TimeBare"
+    elif "ts" in tdims:
+        tuse, tcoq = ("bare", None), "TimeBare"
     else:
-        q = tdims[0].split("__")[1]
-        tuse = ("at", q)
-        tcoq = '(TimeAt (match gran_of_s "%s", gran_of_s "%s" with Some a, Some b => nested_b a b | _, _ => false end))' % (q, pa["granularity"])
+        # EVERY requested granularity of the time dimension must be derivable from the rollup's
+        qs = [d.split("__")[1] for d in tdims]
+        tuse = ("at", qs[0])
+        tcoq = "(TimeAt (%s))" % " && ".join('(match gran_of_s "%s", gran_of_s "%s" with Some a, Some b => nested_b a b | _, _ => false end)' % (q, pa["granularity"]) for q in qs)
     reason = None
     for (a, filt), mn in zip(aggs, case["mets"]):
         if filt:
@@ -390,6 +407,7 @@ def run(c):
     n = 260 if c.tier == "quick" else 4000
     cases = corpus_cases() + [(gen_friendly(c.rng) if k % 2 else gen_case(c.rng)) for k in range(n)] + [gen_candidates(c.rng) for _ in range(max(12, n // 10))]
     cases = [x for _ in range(max(8, n // 30)) for x in gen_sibling_pair(c.rng)] + cases
+    cases = cases + [gen_two_grans(c.rng) for _ in range(max(16, n // 12))]
     results, terms, tindex = [], [], []
     stats = {"routed": 0, "not_routed": 0, "routed_equal": 0, "model_compared": 0, "exact_routes": 0, "inexact_routes": 0, "materialisation_errors": 0}
     for i, case in enumerate(cases):
